@@ -1168,7 +1168,8 @@ def m_debug_struct(ex, a, m):
     if hasattr(f, 'parts'): f.parts.append(n)
     f.buf.append(dbg_render(n)); return ok(UNIT)
 def fmt_f64(x):
-    """serde_json's number printing (ryu `pretty`): shortest round-trip digits; positional notation for 1e-5 <= |x| < 1e16, exponent otherwise"""
+    """serde_json's number printing (1.0.151 with zmij: shortest round-trip digits; positional notation for 1e-5 <= |x| < 1e16, otherwise an exponent,
+    written with an explicit '+' when positive) -- calibrated against the native binary"""
     import math
     from decimal import Decimal
     if x == 0: return '-0.0' if math.copysign(1, x) < 0 else '0.0'
@@ -1179,8 +1180,8 @@ def fmt_f64(x):
     if 0 <= exp and kk <= 16: r = d + '0' * exp + '.0'
     elif 0 < kk <= 16: r = d[:kk] + '.' + d[kk:]
     elif -5 < kk <= 0: r = '0.' + '0' * (-kk) + d
-    elif n == 1: r = d + 'e' + str(kk - 1)
-    else: r = d[0] + '.' + d[1:] + 'e' + str(kk - 1)
+    elif n == 1: r = d + 'e' + ('+' if kk - 1 > 0 else '') + str(kk - 1)
+    else: r = d[0] + '.' + d[1:] + 'e' + ('+' if kk - 1 > 0 else '') + str(kk - 1)
     return ('-' if sign else '') + r
 def variable_json(ex, v):
     v = deref_all(v)
